@@ -3,7 +3,7 @@ import EaselModel.Dsqdata.Codec
 import EaselModel.Dsqdata.Loader
 import EaselModel.WorkQueue.Model
 import EaselModel.Threads.Model
-import EaselModel.Pipeline.Model
+import EaselModel.Pipeline.Progress
 /-! Line-protocol driver for the C12 models: dsqdata codec, loader arithmetic (through `dsqrt`), work queue
     (sequential differential ops `wq …`, and `wqtrace`: validation of an observed multi-threaded trace). -/
 open EaselModel EaselModel.Proto EaselModel.Dsqdata EaselModel.WorkQueue
@@ -222,6 +222,13 @@ def pipeCheck (s : Pipeline.Sys) : Option String :=
   if s.returned != List.range s.nchunk then some "returned-not-0..nchunk-1"
   else if !s.eofs.isEmpty && s.nchunk != s.T then some "eof-before-all-chunks-returned"
   else if s.nextBuf != s.nalloc + s.freed then some "buffer-accounting"
+  else if s.live != s.nalloc then some "buffer-conservation"
+  -- no lost wake-up, checked on the states of the observed run (not a theorem for the pipeline): a thread asleep and
+  -- not signalled since must still be rightly waiting
+  else if s.lwait == some false && !Pipeline.loaderBlocked s then some "lost-wakeup-loader"
+  else if (List.range s.U).any (fun u => (s.lane u).uwait == some false && !Pipeline.unpBlocked s u) then some "lost-wakeup-unpacker"
+  else if s.reader.isSome && !s.rsig && !Pipeline.readBlocked s then some "lost-wakeup-consumer"
+  else if Pipeline.loaderBlocked s && (List.range s.U).all (fun u => Pipeline.unpBlocked s u) && s.cheld.isEmpty && Pipeline.readBlocked s then some "deadlock"
   else none
 
 def pipeValidate (U C T : Nat) (i0s : List Nat) (evs : List String) : String := Id.run do
